@@ -44,8 +44,8 @@ func init() {
 }
 
 func run(c *vf.Ctx) {
-	nChains := c.N(8, 64)
-	heights := c.N(7, 12)
+	nChains := c.N(16, 96)
+	heights := c.N(8, 13)
 	c.Set("chains", nChains)
 	c.Set("heights_per_chain", heights)
 	c.Parallel(nChains, 8, 1000, func(i int, rng *rand.Rand) {
@@ -63,6 +63,8 @@ func run(c *vf.Ctx) {
 	c.RequireCounter("subset_rejected", 20)
 	c.RequireCounter("subset_exactly_two_thirds", 1)
 	c.RequireCounter("valset_changes_applied", 3)
+	c.RequireCounter("unsigned_field_cases", 200)
+	c.RequireCounter("time_jump_cases", 3)
 	c.RequireCounter("fuzz_decoded_blocks", 200)
 	c.RequireCounter("fuzz_decoded_commits", 100)
 	c.RequireCounter("sync_tampered_rejected", int64(nChains))
